@@ -8,8 +8,8 @@ import numpy as np
 from vlib import core, dom, rescorr
 
 ID = "C18"
-GEN = []
-PROPS = ["C18_fitpressure.v"]
+GEN = ["fitpressure"]
+PROPS = ["C18_fitpressure.v", "C18_setup.v"]
 
 
 def coq_objective(ctx, items):
